@@ -82,7 +82,7 @@ fn bgzf_boundaries(data: &[u8]) -> Vec<usize> {
 
 fn offsets(data: &[u8], rng: &mut Rng, effort: u64) -> Vec<usize> {
     let len = data.len();
-    let exhaustive = if effort == 0 { 600 } else { 3000 };
+    let exhaustive = if effort == 0 { 2000 } else { 6000 };
     let mut v: Vec<usize> = if len <= exhaustive {
         (1..len).collect()
     } else {
@@ -686,6 +686,19 @@ fn generate(rng: &mut Rng, tier: &str, w: &mut CaseWriter) {
         files_of.push(("sam", sam.clone()));
         files_of.push(("samgz", files::bgzip(&sam, &files::random_breaks(rng, sam.len()), true)));
         files_of.push(("bamraw", raw.clone()));
+        {
+            // NUL-padded header text (allowed by the format; exercises sam_header::Reader's is_eol state
+            // and discard_to_end across windows)
+            let l_text = u32::from_le_bytes(raw[4..8].try_into().unwrap()) as usize;
+            let pad = rng.range(1, 70) as usize;
+            let mut padded = raw[..4].to_vec();
+            padded.extend(((l_text + pad) as u32).to_le_bytes());
+            padded.extend(&raw[8..8 + l_text]);
+            padded.extend(std::iter::repeat_n(0u8, pad));
+            padded.extend(&raw[8 + l_text..]);
+            files_of.push(("bamraw", padded.clone()));
+            files_of.push(("bam", files::bgzip(&padded, &files::random_breaks(rng, padded.len()), true)));
+        }
         files_of.push(("bam", files::bgzip(&raw, &files::random_breaks(rng, raw.len()), rng.chance(3, 4))));
         let usam = files::sam_text(rng, true, false);
         files_of.push(("cram", files::cram_file(&usam)));
@@ -730,6 +743,12 @@ fn generate(rng: &mut Rng, tier: &str, w: &mut CaseWriter) {
             }
         }
     }
+    // the two FASTA input classes with a known cause, so that they are reproduced on every run
+    for f in [&b">s\nAC\rGT\nAA\n"[..], &b">s\nAC>GT\nAA\n"[..]] {
+        push(w, rng, "fasta", f);
+        push(w, rng, "fastaidx", f);
+    }
+    push(w, rng, "fastq", b"@r3\r\nNCG\r\n+\r\n%2O\r\n");
     // larger BGZF streams: full 64 KiB blocks (read-into-caller-buffer path, many cuts inside a block)
     for _ in 0..(if thorough { 3 } else { 1 }) {
         let n = rng.range(66000, 140000) as usize;
